@@ -205,6 +205,11 @@ func genericCheck(w *World) []Violation {
 			vs = append(vs, Violation{Prop: "C20", Sig: "map-race:" + r.Field + ":" + a + "|" + b,
 				Msg: fmt.Sprintf("map %s is accessed by %s and by %s without any happens-before order between the two (lock, wait group, once, condition variable, atomic, goroutine start)", r.Field, r.SiteA, r.SiteB)})
 		}
+		// uses of a primitive on which the real one panics, recorded by the shims
+		for _, m := range w.sched.Misuses {
+			vs = append(vs, Violation{Prop: "C20", Sig: "sync-misuse:" + m,
+				Msg: "the real sync primitive panics in this schedule: " + m})
+		}
 	}
 	return vs
 }
